@@ -1,6 +1,7 @@
 //! C03 — an open breaker shields the inner service (engine A).
 
-use crate::handle::{build, Cb, CbCfg, TransitionLog, FALLBACK_SERIAL};
+use crate::handle::{build_full, Cb, CbCfg, FbGate, TransitionLog, FALLBACK_SERIAL};
+use std::sync::Arc;
 use tower_resilience_circuitbreaker::CircuitState;
 use trv_core::inner::{Out, Req};
 use trv_core::svcx::{self, Action, Counts, Scenario, Viol};
@@ -14,7 +15,20 @@ pub struct C03 {
     pub max_force: usize,
 }
 
+/// One poll of an async view of the breaker: None if it would have to wait - the circuit
+/// lock is then being held across an await by somebody.
+fn poll_view<T>(f: futures::future::BoxFuture<'_, T>) -> Option<T> {
+    let mut f = f;
+    let waker = trv_core::ilv::noop_waker();
+    let mut cx = std::task::Context::from_waker(&waker);
+    match f.as_mut().poll(&mut cx) {
+        std::task::Poll::Ready(v) => Some(v),
+        std::task::Poll::Pending => None,
+    }
+}
+
 pub struct X {
+    gate: Arc<FbGate>,
     svc: Box<dyn Cb>,
     other: Box<dyn Cb>,
     tl: TransitionLog,
@@ -24,6 +38,7 @@ pub struct X {
     pre_had_inner: bool,
     saw_open_reject: bool,
     saw_inflight_when_opened: bool,
+    saw_pending_fallback: bool,
 }
 
 fn t_open(tl: &TransitionLog) -> Option<u64> {
@@ -49,9 +64,9 @@ impl Scenario for C03 {
         self.callers
     }
     fn init(&self, w: &mut World) -> X {
-        let (svc, tl) = build(&self.cfg, w.inner.clone(), w.origin);
+        let (svc, tl, gate) = build_full(&self.cfg, w.inner.clone(), w.origin, None);
         let other = svc.clone_box();
-        X { svc, other, tl, pre_open: false, pre_calls: 0, pre_had_inner: false, saw_open_reject: false, saw_inflight_when_opened: false }
+        X { gate, svc, other, tl, pre_open: false, pre_calls: 0, pre_had_inner: false, saw_open_reject: false, saw_inflight_when_opened: false, saw_pending_fallback: false }
     }
     fn arrive(&self, w: &mut World, x: &mut X, c: usize, _v: u8) {
         // every caller works on its own clone
@@ -63,23 +78,38 @@ impl Scenario for C03 {
     fn outs(&self) -> Vec<Out> {
         vec![Out::Ok, Out::Err(0)]
     }
-    fn ctl_actions(&self, _w: &World, _x: &X) -> Vec<u8> {
-        vec![0]
+    fn ctl_actions(&self, _w: &World, x: &X) -> Vec<u8> {
+        // 0: force_open through another clone; 1: let pending fallback futures complete
+        let mut v = vec![0];
+        if self.cfg.fallback_gated && !*x.gate.open.lock().unwrap() {
+            v.push(1);
+        }
+        v
     }
-    fn apply_ctl(&self, w: &mut World, x: &mut X, _ctl: u8) {
-        w.block_on(x.other.force_open());
+    fn apply_ctl(&self, w: &mut World, x: &mut X, ctl: u8) {
+        if ctl == 1 {
+            x.gate.release();
+            return;
+        }
+        // (a breaker whose lock is held across an await would make this wait for ever)
+        if poll_view(x.other.metrics()).is_some() {
+            w.block_on(x.other.force_open());
+        }
     }
     fn allow(&self, _w: &World, _x: &X, h: &[Action], a: &Action) -> bool {
         let c = Counts::of(h);
         match a {
             Action::Tick => c.ticks < self.max_ticks,
             Action::Drop(_) => c.drops < self.max_drops,
-            Action::Ctl(_) => c.ctls < self.max_force,
+            Action::Ctl(0) => h.iter().filter(|a| matches!(a, Action::Ctl(0))).count() < self.max_force,
+            Action::Ctl(_) => true,
             _ => true,
         }
     }
     fn fingerprint(&self, w: &World, x: &X) -> String {
-        let m = w.block_on(x.svc.metrics());
+        let Some(m) = poll_view(x.svc.metrics()) else {
+            return format!("views-blocked/{:?}/{}", x.svc.state_sync(), *x.gate.open.lock().unwrap());
+        };
         let tsc = if m.state == CircuitState::Open { m.time_since_state_change.as_millis() as i64 } else { -1 };
         // the oracle's own memory is state too: how long ago the transition log last saw the
         // breaker open (while that still shields). For a correct breaker this equals `tsc`; for
@@ -87,7 +117,7 @@ impl Scenario for C03 {
         // history whose shield has just restarted into one whose shield is about to end.
         let now = w.now_ms();
         let shield = t_open(&x.tl).filter(|t| now < t + self.cfg.wait_ms).map(|t| (now - t) as i64).unwrap_or(-1);
-        format!("{:?}/{}/{}/{}/{}/{}/{}", m.state, m.total_calls, m.failure_count, m.success_count, m.slow_call_count, tsc, shield)
+        format!("{:?}/{}/{}/{}/{}/{}/{}/{}", m.state, m.total_calls, m.failure_count, m.success_count, m.slow_call_count, tsc, shield, *x.gate.open.lock().unwrap())
     }
     fn before(&self, w: &World, x: &mut X, a: &Action) {
         let now = w.now_ms();
@@ -110,6 +140,11 @@ impl Scenario for C03 {
         if s1 != s2 {
             out.push(Viol::new("clones_disagree", site, format!("two clones of one breaker show {s1:?} and {s2:?}")));
         }
+        // the circuit lock is never held across an await: the async views answer in one poll
+        if poll_view(x.svc.metrics()).is_none() {
+            out.push(Viol::new("views_blocked", site, format!("after {} metrics() cannot complete: the circuit lock is being held across an await (callers admitted earlier cannot record their outcome, open calls are not answered)", a.enc())));
+            return;
+        }
         let calls_now = w.inner.lock().unwrap().calls.len();
         if x.pre_open && calls_now > x.pre_calls {
             out.push(Viol::new(
@@ -124,6 +159,11 @@ impl Scenario for C03 {
                 match &w.callers[c].phase {
                     Phase::Done(Outcome::Layer(t)) if t == "Open" && !self.cfg.fallback => x.saw_open_reject = true,
                     Phase::Done(Outcome::Ok(r)) if self.cfg.fallback && r.serial == FALLBACK_SERIAL => x.saw_open_reject = true,
+                    // a fallback that is still pending: it must at least have been started in this poll
+                    Phase::Live if self.cfg.fallback_gated && !*x.gate.open.lock().unwrap() && w.callers[c].req.as_ref().map_or(false, |r| x.gate.invoked.lock().unwrap().contains(&r.id)) => {
+                        x.saw_open_reject = true;
+                        x.saw_pending_fallback = true;
+                    }
                     other => out.push(Viol::new(
                         "open_not_answered_at_once",
                         site,
@@ -136,7 +176,7 @@ impl Scenario for C03 {
             x.saw_inflight_when_opened = true;
         }
     }
-    fn witnesses(&self, w: &World, x: &X, h: &[Action]) -> Vec<&'static str> {
+    fn witnesses(&self, _w: &World, x: &X, h: &[Action]) -> Vec<&'static str> {
         let mut v = vec![];
         if x.saw_open_reject {
             v.push("rejected_while_open");
@@ -144,13 +184,14 @@ impl Scenario for C03 {
         if x.saw_inflight_when_opened {
             v.push("call_in_flight_while_open");
         }
+        if x.saw_pending_fallback {
+            v.push("fallback_pending_while_others_are_served");
+        }
         let tl = x.tl.lock().unwrap();
         if tl.iter().any(|t| t.3 == CircuitState::Open) {
             if h.iter().any(|a| matches!(a, Action::Ctl(_))) {
                 v.push("opened_by_force_open");
             } else {
-                let m = w.block_on(x.svc.metrics());
-                let _ = m;
                 v.push("opened_by_recorded_outcomes");
             }
         }
@@ -164,6 +205,8 @@ impl Scenario for C03 {
     }
     fn epilogue(&self, w: &mut World, x: &mut X, out: &mut Vec<Viol>) -> String {
         let site = self.cfg.site();
+        // pending fallback futures may complete now
+        x.gate.release();
         if !svcx::drain(w, 12) {
             out.push(Viol::new("caller_never_resolves", site, format!("callers {:?} unresolved after draining", w.live_callers())));
             return "stuck".into();
